@@ -43,6 +43,28 @@ def run(ctx):
     seqs = [[ctx.rng.choice(texts) for _ in range(ctx.rng.choice([1, 2, 3]))] for _ in range(800 if quick else 20000)]
     textlib.correspond(ctx, ["from_sources_text" + "".join("\t" + hx(t) for t in s) for s in seqs],
                        "from_sources on text tuples")
+    # multiple sources: the list is accepted iff every member is - also when a member is a padded / altered copy
+    # of an earlier one (anything that remembers sources by a normalised form must not confuse them)
+    PAD = ["\u000b", "\u000c", "\u0085", "\u00a0", "\u2028", "\u2029", "\u3000", "\ufeff", "\u200b", "\u0000", "x", ",", " ", "\n", "\r\n", "\t"]
+    good = [t for t, r in zip(texts, fs) if r is not None and r.startswith("OK ")]
+    rel = []
+    for t in ctx.rng.sample(good, min(len(good), 120 if quick else 1500)):
+        for c in ctx.rng.sample(PAD, 5):
+            v = ctx.rng.choice([t + c, c + t, t + c + c, t.rstrip() + c, t + " " + c])
+            rel += [[t, v], [v, t], [t, t, v]]
+    rel += [[ctx.rng.choice(good)] * n for n in (2, 3, 17, 65)]
+    flat = sorted({x for s_ in rel + seqs for x in s_})
+    single = dict(zip(flat, ctx.impl(["from_str\t" + hx(x) for x in flat])))
+    rl = ["from_sources_text" + "".join("\t" + hx(t) for t in s_) for s_ in rel]
+    rr, _ = textlib.correspond(ctx, rl, "from_sources on a text and its padded / altered copies")
+    sl = ["from_sources_text" + "".join("\t" + hx(t) for t in s_) for s_ in seqs]
+    for s_, l, r in zip(rel + seqs, rl + sl, list(rr) + ctx.impl(sl)):
+        want = all(single[x].startswith("OK ") for x in s_)
+        if r.startswith("OK ") != want:
+            ctx.fail("from_sources accepts a list although one of its texts is rejected on its own" if not want else
+                     "from_sources rejects a list of texts each of which is accepted on its own", l,
+                     {"texts": [x[:80] for x in s_], "alone": [single[x][:60] for x in s_], "together": r[:80]})
+    ctx.notes["related_source_lists"] = len(rel)
     sup = []
     for t in ctx.rng.sample(texts, min(len(texts), 800 if quick else 20000)):
         sh = ctx.rng.choice(textlib.SHAPES_FOR_SUPERSET)
